@@ -27,7 +27,7 @@ for p in props:
         "evidence_file": f"/verif/evidence/{pid}.json",
         "replay_cmd_template": f"./check {pid} --replay {{path}}",
         "engine": getattr(m, "ENGINE", "vmc"),
-        "level_claimed": {"category": m.LEVEL, "text": getattr(m, "LEVEL_TEXT", m.RULE)[:1200], "design_ref": f"DESIGN.md section 5, {pid}"},
+        "level_claimed": {"category": m.LEVEL, "text": (getattr(m, "LEVEL_TEXT", m.RULE)[:1100] + ((" || legs added later: " + m.EXTRA_LEGS) if getattr(m, "EXTRA_LEGS", "") else ""))[:2200], "design_ref": f"DESIGN.md section 5, {pid}"},
         "level_note": "; ".join(getattr(m, "ASSUMPTIONS", [])) or "reference model and harness are trusted",
         "technique": getattr(m, "TECHNIQUE", "bounded exhaustive enumeration of inputs/operation sequences on the real implementation against an executable reference model (explicit-state model checking of the implementation)"),
     })
